@@ -48,7 +48,7 @@ COMPONENTS = {
 }
 FAULT_KINDS = ["oserror_open", "oserror_read", "oserror_mkdir", "torn", "crash", "crash_before", "files_lost_after_crash",
                "hash_seed", "walk_permutation", "creation_order", "prepopulated_output", "relative_paths",
-               "unrelated_files_in_spec_tree", "spec_edited_between_runs", "failed_protocol_py_run_before"]
+               "unrelated_files_in_spec_tree", "spec_edited_between_runs", "failed_protocol_py_run_before", "second_generator_object_in_process"]
 PROBES = ["walk_order_differs_from_sorted", "fault_on_first_write", "fault_on_last_write", "retry_on_same_instance",
           "torn_init_file", "restart_after_crash", "acronym_or_digit_type_name", "import_check", "second_run_same_instance"]
 SHRINK_KEYS = []
@@ -66,7 +66,7 @@ def generate(streams, tier):
         "walk_seeds": [prng.randrange(1 << 30) for _ in range(2 if tier == "quick" else 4)],
         "creation_seed": prng.randrange(1 << 30),
         "fault_seed": prng.randrange(1 << 30),
-        "configs": ["again", "edited", "relpath", "noise", "hash", "walk", "creation", "repeat", "prepop_self", "prepop_other", "prepop_other_noclean",
+        "configs": ["again", "edited", "two_objects", "relpath", "noise", "hash", "walk", "creation", "repeat", "prepop_self", "prepop_other", "prepop_other_noclean",
                     "transient", "crash", "import"],
     }
 
@@ -208,6 +208,17 @@ def run_configs(ctx):
         if rs[1].get("status") == "ok":      # the edited variant is itself a valid tree (when the generator accepts it)
             if not ctx.judge("same-instance-after-spec-edit", rs[3], rs[4]["files"]):
                 return False
+    # ---- two generator objects alive in one process (state must be per object) -----------------------------
+    if "two_objects" in configs:
+        xo = ctx.write_xml(plan["other_tree"], "xml_other")
+        oa, ob = ctx.path("obj_a"), ctx.path("obj_b")
+        rs = ctx.child([{"op": "new", "xml": xo, "slot": "a"}, {"op": "new", "xml": xml, "slot": "b"},
+                        {"op": "generate", "out": oa, "slot": "a"}, {"op": "generate", "out": ob, "slot": "b"},
+                        {"op": "digest", "dir": ob}], "0")
+        res.count("fault.second_generator_object_in_process")
+        key("two_objects")
+        if not ctx.judge("two-generator-objects", rs[3], rs[4]["files"]):
+            return False
     # ---- relative input/output paths from another working directory -----------------------------------
     if "relpath" in configs:
         o = ctx.path("rel_out")
@@ -432,7 +443,7 @@ def shrink(plan, still_fails, budget):
         return plan
     config = res.violation.get("config", "")
     best = plan
-    mapping = {"identical-rerun": "again", "same-instance-after-spec-edit": "edited", "relative-paths": "relpath", "unrelated-files": "noise", "hash-seed": "hash", "walk-order": "walk", "creation-order": "creation", "second-run-same-instance": "repeat",
+    mapping = {"identical-rerun": "again", "two-generator-objects": "two_objects", "same-instance-after-spec-edit": "edited", "relative-paths": "relpath", "unrelated-files": "noise", "hash-seed": "hash", "walk-order": "walk", "creation-order": "creation", "second-run-same-instance": "repeat",
                "third-run-same-directory": "repeat", "prepopulated-own-output": "prepop_self",
                "prepopulated-other-tree": "prepop_other_noclean", "clean-then-generate-over-other-tree": "prepop_other",
                "import": "import", "io-error": "transient", "restart-after-crash": "crash", "protocol.py": "prepop_other"}
